@@ -183,10 +183,12 @@ DED["C05"] = ("interpolation.__resampleTemporal: the resampling loop as a REGION
               "the result is a copy of the first fix followed by exactly one sample per k = 1..N; sample k lies on the segment r with "
               "S[r-1] < k ds <= S[r] (so the divisor S[r] - S[r-1] is never 0, repeated positions included), its two weights are in [0, 1] and "
               "sum to 1, its x, y (on the polyline), z (height) and epoch time are the barycentric combination of the segment's ends, and it is "
-              "stamped with that time to the millisecond (C03).",
-              "building T / S, N = floor(length / ds) in floats, prepareTimeSampling (number / list / reference track), setObsList, "
-              "Track.resample's front end, and the clause 'timestamps never decrease' of the spatial mode (it follows from the proved "
-              "interpolation formula and sorted input times, but is not itself a discharged obligation): bounded only.")
+              "stamped with that time to the millisecond (C03); with non-decreasing input times the interpolated times of successive "
+              "samples never decrease (within a segment the forward weight grows with the abscissa; across segments the segment ends "
+              "bound them), starting from the first fix's time.",
+              "building T / S, N = floor(length / ds) in floats, prepareTimeSampling (number / list / reference track), setObsList and "
+              "Track.resample's front end: bounded only. 'Never decrease' is proved for the interpolated real times; each stamp is within "
+              "1 ms below its time, so the stamps themselves can only be shown non-decreasing up to that millisecond flooring.")
 DED["C13"] = ("TrackWriter.writeToFile's column placement (REGION: the data-order slice, list.sort trusted): for every admissible assignment of "
               "column indices the sorted order list has in position c the pair (c, d), d being the place in the printed data list [E, N, (U), (T)] "
               "of the field whose column id is c - each datum is written in the column the reader takes it from.",
